@@ -210,13 +210,18 @@ AGENTS = ["agent_0", "agent_1", "other_0"]
 FIELDS = ["state", "action", "reward", "next_state", "done"]
 
 
-def ma_args(ids: list[int], vect: bool, kind: str):
+def ma_args(ids: list[int], vect: bool, kind: str, order_rng: random.Random | None = None):
+    """every value of agent number ai encodes 4*id + ai (its done flag: (id + ai) % 2), so data that
+    ends up under another agent's key is visible; each field's dict may list the agents in its own order"""
     def field(fi: int):
         d = {}
-        for ai, ag in enumerate(AGENTS):
-            a = np.array(ids, dtype=np.float32)
+        order = list(enumerate(AGENTS))
+        if order_rng is not None:
+            order_rng.shuffle(order)
+        for ai, ag in order:
+            a = np.array(ids, dtype=np.float32) * 4 + ai
             if FIELDS[fi] == "done":
-                v = np.array([i % 2 for i in ids], dtype=np.float32)
+                v = np.array([(i + ai) % 2 for i in ids], dtype=np.float32)
             elif FIELDS[fi] in ("state", "next_state"):
                 off = 0.5 if FIELDS[fi] == "next_state" else 0.0
                 if kind == "image":
@@ -244,58 +249,63 @@ def ma_args(ids: list[int], vect: bool, kind: str):
     return [field(i) for i in range(len(FIELDS))]
 
 
+def _ma_id(values, dones) -> str:
+    """values: {(agent index, decoded number)}, dones: {(agent index, flag)} -> the common id or MIXED"""
+    ids = set()
+    for ai, v in values:
+        if v != int(v) or int(v) % 4 != ai:
+            return "MIXED"                      # not an integer code, or another agent's data
+        ids.add(int(v) // 4)
+    if len(ids) != 1:
+        return "MIXED"
+    tid = ids.pop()
+    if any(flag != (tid + ai) % 2 for ai, flag in dones):
+        return "MIXED"
+    return str(tid)
+
+
 def ma_decode_experience(e) -> str:
-    vals = set()
+    values, dones = set(), set()
     for f in FIELDS:
-        for ag in AGENTS:
+        for ai, ag in enumerate(AGENTS):
             x = getattr(e, f)[ag]
             xs = list(x.values()) if isinstance(x, dict) else (list(x) if isinstance(x, tuple) else [x])
             for y in xs:
                 y = np.asarray(y, dtype=np.float64).reshape(-1)
                 if f == "done":
-                    vals.add(("d", float(y[0])))
+                    dones.add((ai, float(y[0])))
                 else:
                     off = 0.5 if f == "next_state" else 0.0
                     for v in np.unique(y):
-                        vals.add(("v", float(v) - off))
-    vs = {v for t, v in vals if t == "v"}
-    ds = {v for t, v in vals if t == "d"}
-    if len(vs) != 1 or len(ds) != 1:
-        return "MIXED"
-    v = vs.pop()
-    if v != int(v) or ds.pop() != int(v) % 2:
-        return "MIXED"
-    return str(int(v))
+                        values.add((ai, float(v) - off))
+    return _ma_id(values, dones)
 
 
 def ma_decode_batch(batch, k: int) -> list[str]:
     """sampled batch: tuple(field -> {agent: tensor[k,...]})"""
     rows = []
     for j in range(k):
-        vs, ds = set(), set()
+        values, dones = set(), set()
         for fi, f in enumerate(FIELDS):
-            for ag in AGENTS:
+            for ai, ag in enumerate(AGENTS):
                 x = batch[fi][ag]
                 xs = list(x.values()) if isinstance(x, dict) else (list(x) if isinstance(x, tuple) else [x])
                 for y in xs:
                     y = y[j].reshape(-1).to(torch.float64)
                     if f == "done":
-                        ds.add(float(y[0]))
+                        dones.add((ai, float(y[0])))
                     else:
                         off = 0.5 if f == "next_state" else 0.0
                         for v in torch.unique(y).tolist():
-                            vs.add(v - off)
-        if len(vs) != 1 or len(ds) != 1:
-            rows.append("MIXED")
-            continue
-        v = vs.pop()
-        rows.append(str(int(v)) if v == int(v) and ds.pop() == int(v) % 2 else "MIXED")
+                            values.add((ai, v - off))
+        rows.append(_ma_id(values, dones))
     return rows
 
 
 def run_impl_ma(cap: int, kind: str, ops, case_seed: int):
     from agilerl.components.multi_agent_replay_buffer import MultiAgentReplayBuffer
     random.seed(case_seed)
+    order_rng = random.Random(case_seed ^ 0x5EED) if case_seed % 3 else None   # 2/3 of the cases shuffle key order
     buf = MultiAgentReplayBuffer(memory_size=cap, field_names=FIELDS, agent_ids=AGENTS)
     obs_lines, model_lines, problems, tags = ["ok"], [f"ring dnew {cap}"], [], []
     hist: list[int] = []
@@ -303,7 +313,7 @@ def run_impl_ma(cap: int, kind: str, ops, case_seed: int):
         if op[0] == "add":
             ids = op[1:]
             vect = len(ids) > 1 or (ids[0] % 3 == 0)
-            buf.save_to_memory(*ma_args(ids, vect, kind), is_vectorised=vect)
+            buf.save_to_memory(*ma_args(ids, vect, kind, order_rng), is_vectorised=vect)
             hist += ids
             model_lines.append("ring dadd " + " ".join(map(str, ids)))
             obs_lines.append("ok")
